@@ -267,8 +267,14 @@ func TestC11(t *testing.T) {
 				scfg.CurvePreferences = []tls.CurveID{g}
 			}
 			cache := tls.NewLRUClientSessionCache(4)
+			// Config.ServerName as callers write it: the plain name, or with the trailing dot of
+			// an absolute name (the name sent - and reported by the server - is the plain one)
+			cfgName := secret
+			if i%3 == 2 {
+				cfgName = secret + "."
+			}
 			for round := 0; round < 2; round++ {
-				h := RunCase(j.t, GridCase{Server: scfg}, secret, func(c *tls.Config) {
+				h := RunCase(j.t, GridCase{Server: scfg}, cfgName, func(c *tls.Config) {
 					c.EncryptedClientHelloConfigList = peer.ECHConfigList(key)
 					c.NextProtos = []string{"h2", "http/1.1"}
 					c.ClientSessionCache = cache
